@@ -246,7 +246,21 @@ func c17Scrape(t *vfh.Toks, mm *Metrics, reg *prometheus.Registry, e *vfobs.Enc)
 }
 
 func c17Case(t *testing.T, out *vfh.Out, c vfobs.Case) {
-	cfg, err := c.Prepare()
+	c17CaseW(t, out, c, false)
+	c17CaseW(t, out, c, true)
+}
+
+// c17CaseW: with warm set, the long-lived Metrics is created — and scraped once — while every
+// interface is still uninitialised; the interfaces are then brought to their lifecycle points in
+// place (as the advertiser's Prepare does) and the judged scrapes follow.
+func c17CaseW(t *testing.T, out *vfh.Out, c vfobs.Case, warm bool) {
+	var cfg *config.Config
+	var err error
+	if warm {
+		cfg, err = vfobs.Parse(c.Doc)
+	} else {
+		cfg, err = c.Prepare()
+	}
 	if err != nil {
 		t.Fatalf("catalogue document %s rejected: %v\n%s", c.Doc.Tag, err, c.Doc.TOML)
 	}
@@ -261,6 +275,11 @@ func c17Case(t *testing.T, out *vfh.Out, c vfobs.Case) {
 	st := &vfobs.State{}
 	reg := prometheus.NewPedanticRegistry()
 	mm := NewMetrics(metricslite.NewPrometheus(reg), "v", time.Time{}, st, cfg.Interfaces)
+	if warm {
+		c.Script(st, cfg, 0)
+		c17Scrape(new(vfh.Toks), mm, reg, e) // not judged here
+		c.Advance(cfg)
+	}
 	it := new(vfh.Toks)
 	for k := range c.Rounds {
 		c.Script(st, cfg, k)
